@@ -8,7 +8,7 @@ from vlib import log
 
 KEEP = {"reset", "Reserve", "Withdraw", "Start", "ConnWrite", "WriteRet", "Deliver", "ReadFail", "ConnClose",
         "Close", "Cancel", "ExchangeEnd", "Stuck", "Bulk"}
-DROP_FIELDS = ("ms", "conn", "text", "len", "again", "byclose", "e", "cnt")
+DROP_FIELDS = ("seq", "ms", "conn", "text", "len", "again", "byclose", "e", "cnt")
 
 FAULT_STEPS = ("ReadFail", "ExtClose", "WriteFail")
 
